@@ -427,7 +427,8 @@ class PrintError(Exception):
 class Printer:
     """prints a CONCRETE tree (after `concretize`); records the byte offset at which each node's first token starts"""
 
-    def __init__(self, newline='\n', indent='    ', lead=''):
+    def __init__(self, newline='\n', indent='    ', lead='', wrap_params=False):
+        self.wrap_params = wrap_params      # every parameter of a list with several parameters on a line of its own
         self.out = []
         self.pos = 0
         self.starts = {}
@@ -621,12 +622,17 @@ class Printer:
 
     def param_list(self, plist):
         self.w('(')
+        wrap = self.wrap_params and len(plist.items) > 1
         for j, t in enumerate(plist.items):
             if j:
-                self.w(', ')
+                self.w(',' if wrap else ', ')
+            if wrap:
+                self.depth += 2; self.line(); self.depth -= 2
             self.mark(t.fields[0])
             if t.fields[1].variant == 'Some':
                 self.param(t.fields[1].fields[0])
+        if wrap:
+            self.line()
         self.w(')')
 
     # ---- statements
